@@ -361,6 +361,8 @@ def run_sorting(ctx):
         ctx.holds("R1", C, where(mod, inner), "pairs (i, j) with i < j < len: every unordered pair exactly once", key="pair-range")
     elif start == poly.norm(poly.parse(ivar)) and stop == want_stop:
         ctx.violated("R1", C, where(mod, inner), "inner loop starts at i: every member is also compared with itself (harmless only for an irreflexive comparator; with the epsilon comparator a member would count as dominating itself)", key="pair-range")
+    elif not ({k_ for m_ in list(stop.num) + list(start.num) for k_, _e in m_} <= {ivar, "len(%s)" % pop}):
+        ctx.inconclusive("R1", C, where(mod, inner), "inner loop %s: bounds [%s, %s) contain terms the rule does not know" % (text(inner.iter), poly.key_of(start), poly.key_of(stop)), key="pair-range")
     else:
         ctx.violated("R1", C, where(mod, inner), "inner loop %s visits members [%s, %s): it does not enumerate every pair (i, j), i < j < len(%s): some pairs are never compared" % (text(inner.iter), poly.key_of(start), poly.key_of(stop), pop), key="pair-range")
     # names of the two members (used by the bookkeeping rules below)
@@ -707,6 +709,39 @@ def run_sorting(ctx):
                         and [access_path(a) for a in s.value.args] == [pop, idv]:
                     qn = access_path(s.targets[0])
             if qn is None:
+                # ... or through a table id -> member filled from the same population (one entry per member, keyed by its id)
+                tables = set()
+                for lp0 in [x for x in ast.walk(fn) if isinstance(x, ast.For) and access_path(x.iter) == pop and isinstance(x.target, ast.Name)]:
+                    mv = lp0.target.id
+                    for c0 in calls_in(lp0):
+                        if isinstance(c0.func, ast.Attribute) and c0.func.attr == "setdefault" and len(c0.args) == 2 and access_path(c0.args[0]) == mv + ".id" \
+                                and access_path(c0.args[1]) == mv and isinstance(c0.func.value, ast.Name):
+                            tables.add(c0.func.value.id)
+                    for a0 in [x for x in ast.walk(lp0) if isinstance(x, ast.Assign)]:
+                        t0 = a0.targets[0]
+                        if isinstance(t0, ast.Subscript) and isinstance(t0.value, ast.Name) and access_path(t0.slice) == mv + ".id" and access_path(a0.value) == mv:
+                            tables.add(t0.value.id)
+                for a0 in [x for x in ast.walk(fn) if isinstance(x, ast.Assign) and isinstance(x.value, ast.DictComp) and isinstance(x.targets[0], ast.Name)]:
+                    dc = a0.value
+                    if len(dc.generators) == 1 and not dc.generators[0].ifs and access_path(dc.generators[0].iter) == pop and isinstance(dc.generators[0].target, ast.Name) \
+                            and access_path(dc.key) == dc.generators[0].target.id + ".id" and access_path(dc.value) == dc.generators[0].target.id:
+                        tables.add(a0.targets[0].id)
+                # the table is not written anywhere else in the function
+                for tb in list(tables):
+                    writes = [x for x in ast.walk(fn) if (isinstance(x, ast.Call) and isinstance(x.func, ast.Attribute) and access_path(x.func.value) == tb
+                                                          and x.func.attr in ("setdefault", "update", "pop", "clear", "popitem"))
+                              or (isinstance(x, ast.Assign) and isinstance(x.targets[0], ast.Subscript) and access_path(x.targets[0].value) == tb)]
+                    if len(writes) != 1:
+                        tables.discard(tb)
+                for s in il.body:
+                    if isinstance(s, ast.Assign) and len(s.targets) == 1 and isinstance(s.targets[0], ast.Name):
+                        v0 = s.value
+                        if isinstance(v0, ast.Subscript) and access_path(v0.value) in tables and access_path(v0.slice) == idv:
+                            qn = s.targets[0].id
+                        elif isinstance(v0, ast.Call) and isinstance(v0.func, ast.Attribute) and v0.func.attr == "get" and access_path(v0.func.value) in tables \
+                                and len(v0.args) == 1 and access_path(v0.args[0]) == idv:
+                            qn = s.targets[0].id
+            if qn is None:
                 problems.append(("inconclusive", "recorded id is not resolved through self.individual(population, id)"))
             else:
                 bp = Enumerator(loop_counts=(0, 1)).function_paths(body_fn(il.body, fn.args, il.lineno))
@@ -776,7 +811,18 @@ def run_sorting(ctx):
                 mc = method_call(c)
                 if mc and feat(mc[0]) and feat(mc[0])[1] in FEATS and mc[1] in ("append", "extend", "remove", "pop", "clear", "insert") and id(s) not in handled_writes:
                     stray.append(s)
-    if stray:
+    # when R5 could not read the peel, the peel's own writes (inside the loop over a member's recorded ids) are unattributed,
+    # not additional: no verdict about them
+    if stray and inc and not viol:
+        idloop_stmts = {id(x) for lp_ in ast.walk(w) if isinstance(lp_, ast.For) and feat(lp_.iter) and feat(lp_.iter)[1] == "dominate" for x in stmts_of(lp_)}
+        unattributed = [x for x in stray if id(x) in idloop_stmts]
+        stray = [x for x in stray if id(x) not in idloop_stmts]
+        if unattributed and not stray:
+            ctx.inconclusive("R6", C, where(mod, unattributed[0]), "the peeling loop was not followed (R5): its writes are not attributed")
+            stray = None
+    if stray is None:
+        pass
+    elif stray:
         ctx.violated("R6", C, where(mod, stray[0]), "additional write to the rank bookkeeping outside the algorithm's schema: %s" % text(stray[0]).strip())
     else:
         ctx.holds("R6", C, where(mod, fn), "the bookkeeping features are written only by the reset, the pair bookkeeping, the first-front test and the peel")
